@@ -355,10 +355,13 @@ class IntervalTier(textgrid_tier.TextgridTier):
                 if interval.end <= start:
                     newEntryList.append(interval)
                 elif interval.start >= end:
+                    # The end of the erased region maps exactly onto its start;
+                    # rounding must not move an entry before that point
+                    newStart = interval.start - diff
+                    if interval.start == end or newStart < start:
+                        newStart = start
                     newEntryList.append(
-                        Interval(
-                            interval.start - diff, interval.end - diff, interval.label
-                        )
+                        Interval(newStart, interval.end - diff, interval.label)
                     )
 
             # Special case: an interval that spanned the deleted
